@@ -50,6 +50,8 @@ struct ArmState {
     bottom: AtomicUsize,
     ended: AtomicUsize,
     running: AtomicUsize,
+    /// set right before the arm panics
+    panicked: AtomicUsize,
 }
 
 struct End_(Arc<Vec<ArmState>>, usize);
@@ -82,7 +84,7 @@ pub fn run(case: &Case) -> Outcome {
         }
     }
     let n = arms.len();
-    let st: Arc<Vec<ArmState>> = Arc::new((0..n).map(|_| ArmState { top: AtomicUsize::new(0), bottom: AtomicUsize::new(0), ended: AtomicUsize::new(0), running: AtomicUsize::new(0) }).collect());
+    let st: Arc<Vec<ArmState>> = Arc::new((0..n).map(|_| ArmState { top: AtomicUsize::new(0), bottom: AtomicUsize::new(0), ended: AtomicUsize::new(0), running: AtomicUsize::new(0), panicked: AtomicUsize::new(0) }).collect());
     let states = States::install(vec![format!("poller/{}", ctx_name(poller.ctx))], opname);
     let log = Log::new();
     // per arm sources
@@ -150,6 +152,7 @@ pub fn run(case: &Case) -> Outcome {
                                 _ => {}
                             }
                             if panic_at == 1 && e + 1 == events {
+                                st3[i].panicked.store(1, Ordering::SeqCst);
                                 panic!("mv-expected-panic-arm-{i}");
                             }
                             st3[i].top.fetch_add(1, Ordering::SeqCst);
@@ -164,6 +167,7 @@ pub fn run(case: &Case) -> Outcome {
                             st3[i].bottom.fetch_add(1_000_000, Ordering::SeqCst);
                         }
                         if panic_at == 2 && e + 1 == events {
+                            st3[i].panicked.store(1, Ordering::SeqCst);
                             panic!("mv-expected-panic-arm-{i}");
                         }
                     }
@@ -275,6 +279,12 @@ pub fn run(case: &Case) -> Outcome {
         End::Panic(s) if s.starts_with("mv-expected-panic-arm-") && !panicking.is_empty() => {}
         e => out.fail("poller-ended-abnormally", e.kind()),
     }
+    // a panic in an arm is re-raised in the poller: by the poll that meets the arm's Done
+    // event, at the latest by the drain when the scope is left
+    let did_panic: Vec<usize> = (0..n).filter(|&i| st[i].panicked.load(Ordering::SeqCst) != 0).collect();
+    if !did_panic.is_empty() && !matches!(end, End::Panic(_)) {
+        out.fail("arm-panic-not-re-raised-in-the-poller", format!("arms {did_panic:?} panicked, the poller ended with {}", end.kind()));
+    }
     // Timeout only after the given time
     let obs = log.take();
     for o in obs.iter().filter(|o| o.res == R_TIMEOUT) {
@@ -311,7 +321,7 @@ fn run_select(case: &Case) -> Outcome {
     let poller = &case.actors[0];
     let feeds: Vec<u64> = case.actors.iter().skip(1).filter(|a| a.role == 2).map(|a| a.ops[0].1 as u64).collect();
     let n = feeds.len().clamp(2, 3);
-    let st: Arc<Vec<ArmState>> = Arc::new((0..3).map(|_| ArmState { top: AtomicUsize::new(0), bottom: AtomicUsize::new(0), ended: AtomicUsize::new(0), running: AtomicUsize::new(0) }).collect());
+    let st: Arc<Vec<ArmState>> = Arc::new((0..3).map(|_| ArmState { top: AtomicUsize::new(0), bottom: AtomicUsize::new(0), ended: AtomicUsize::new(0), running: AtomicUsize::new(0), panicked: AtomicUsize::new(0) }).collect());
     let states = States::install(vec![format!("selector/{}", ctx_name(poller.ctx))], opname);
     let mut txs = vec![];
     let mut rxs = vec![];
